@@ -54,3 +54,7 @@ const BGZF_XLEN: usize = 6;
 const BGZF_MAX_ISIZE: usize = 1 << 16;
 
 pub(crate) const BGZF_HEADER_SIZE: usize = gz::HEADER_SIZE + GZIP_XLEN_SIZE + BGZF_XLEN;
+
+#[cfg(kani)]
+#[path = "/verif/harness/bgzf/root.rs"]
+mod verif_kani;
